@@ -14,6 +14,7 @@ ANCHORS = [("fit.py", "IndentationFitter.fit"),
            ("indent.py", "Indentation.compute_emodulus_mindelta")]
 MIN_EVALS = {"quick": 1200, "thorough": 25000}
 MIN_EVENTS = {"absolute-range fits judged": 300,
+              "refits of the same object with nudged bounds": 100,
               "stand-alone E(delta) scans judged": 30,
               "relative-cp fits judged": 150, "plateau fits judged": 100,
               "interval bounds placed on sample abscissae": 200}
@@ -116,6 +117,39 @@ def one_case(rec, tap, rng, cid):
                       % (int(mask.sum()), int(exp.sum())), case)
         return
     got = fitlab.check_points(rec, idnt, kw, list(tap.log), case)
+    if mode == "abs" and rng.random() < .6:
+        # refit the same object with bounds moved by a few nanometres / to
+        # the neighbouring sample: the points used must follow
+        a0, b0 = idnt.fit_properties["range_x"]
+        srt = np.sort(xs)
+
+        def nudge(v):
+            if not np.isfinite(v):
+                return v
+            if rng.random() < .5:
+                j = int(np.clip(np.searchsorted(srt, v)
+                                + int(rng.choice([-2, -1, 1, 2])),
+                                0, srt.size - 1))
+                return float(srt[j])
+            return float(v + rng.choice([-1, 1]) * 10 ** rng.uniform(-10, -8))
+        new = [nudge(a0), nudge(b0) if rng.random() < .7 else b0]
+        if new[0] != new[1] and (new[0] != a0 or new[1] != b0):
+            case2 = dict(case, second_range=new)
+            tap.clear()
+            try:
+                idnt.fit_model(range_x=new)
+            except BaseException as e:  # noqa
+                rec.event("refit raised %s" % type(e).__name__)
+            else:
+                rec.evaluated(dg=(spec, settings, new))
+                rec.event("refits of the same object with nudged bounds")
+                if idnt.fit_properties.get("success"):
+                    rec.check(len(tap.log) > 0,
+                              "nudged-range/no-new-optimisation",
+                              "range_x changed from %r to %r but nothing was "
+                              "optimised" % ([a0, b0], new), case2)
+                    fitlab.check_points(rec, idnt, kw, list(tap.log), case2,
+                                        prefix="nudged-range/")
     if mode in ("abs", "plat") and seg == 0 and rng.random() < .35:
         # the scan as a stand-alone operation
         fpd = idnt.fit_properties
